@@ -26,10 +26,13 @@ R_ALL = ["R1-comment", "R2-blank-lines", "R3-indent", "R4-spacing", "R5-crlf", "
 REQUIRED = {**{r: 10 for r in R_ALL}, "isolated:R5-crlf": 2, "isolated:R10-bom": 2, "isolated:R8-semicolons": 2, "isolated:R6-wrap": 2, "isolated:R7-comma": 2,
             "isolated:R1-comment": 2, "isolated:R11-multifile": 2, "isolated:R9-end-added": 2,
             "crlf+wrapped-params": 5, "bom-on-later-file": 3, "bom-on-first-file": 3, "multifile-end-in-every-file": 3, "multifile-no-trailing-newline": 3, "multifile-end-line-variants": 5, "multifile-crlf-end-line": 3,
-            "master-file-variant": 2, "corpus-base": 20, "generated-base": 20, "snapshot-with-chains": 20}
+            "text-closes-with-word-ending-in:n": 3, "text-closes-with-word-ending-in:d": 2, "text-closes-with-word-ending-in:E": 2, "master-file-variant": 2, "corpus-base": 20, "generated-base": 20, "snapshot-with-chains": 20}
 ASSUMPTIONS = ["parameter-list wrapping only on non-empty lists; file splits only between top-level statements; string inputs end with a newline",
                "warnings are recorded, not compared; absent parameter list '' == []"]
 DEFAULT_CFG = None
+TAILS = [{"k": "Alias", "a": "MyTail", "b": b} for b in ("Upsilon", "Mydeuteron", "phiE", "dEnd", "nEd", "K'", "x*", "p~", "f(2)", "a.", "b_", "c/", "D0", "pi+", "K-")] + [
+    {"k": "Pythia", "cmd": "PythiaBothParam", "mod": "ParticleDecays", "par": "mixB", "value": "on", "sp": (" ", " ")},
+    {"k": "ChargeConj", "a": "Myanti-deuteron", "b": "Mydeuteron"}]
 
 
 def choose_mothers(p, bound=300, k=4):
@@ -229,6 +232,12 @@ def run(ctx):
     # generated bases
     for i in range(ctx.pick(12, 200)):
         stmts = C01.gen_file(ctx)
+        if i % 2 == 0:
+            # the text closes with a statement (no End line, no comment) whose last word ends in each character of the label alphabet in turn
+            tail = TAILS[(i // 2 * ctx.nshards + ctx.shard) % len(TAILS)]
+            stmts = [st for st in stmts if st["k"] != "End"] + [tail]
+            last = (tail.get("b") or tail.get("value"))[-1]
+            ctx.hit("text-closes-with-word-ending-in:" + last)
         ctx.hit("generated-base")
         check_base(ctx, L.render(stmts), (), ctx.pick(5, 8), "gen", f"generated#{i}", isolated=iso if i < 2 else ())
     # corpus bases
